@@ -41,6 +41,12 @@ def ops : OpTable := [
     outJac (selectInto (Model.WindowMul.k1LookupInit Model.K1Pt.ops (jacOf (arg a 0))) (arg a 1).asNat)),
   ("k1.scalarMultJ", pureOp fun a => outJac (scalarMult (jacOf (arg a 0)) (arg a 1).asBytes)),
   -- the elliptic.Curve methods
+  -- NewPoint(x, y *big.Int): the coordinate range check and the big.Int → field conversion
+  ("k1.newPoint", pureOp fun a =>
+    match newPoint (arg a 0).asInt (arg a 1).asInt with
+    | .ok p => .arr [.str "ok", ofPt p]
+    | .err c => .arr [.str "err", .str c]
+    | .panic s => .arr [.str "panic", .str s]),
   ("k1.isOnCurve", pureOp fun a => .bool (curveIsOnCurve (arg a 0).asInt (arg a 1).asInt)),
   ("k1.add", pureOp fun a => outXY (curveAdd (arg a 0).asInt (arg a 1).asInt (arg a 2).asInt (arg a 3).asInt)),
   ("k1.double", pureOp fun a => outXY (curveDouble (arg a 0).asInt (arg a 1).asInt)),
